@@ -1,13 +1,21 @@
 ------------------------------- MODULE GenSym -------------------------------
 EXTENDS SymResolve, Json
-CONSTANT MaxLen
+CONSTANTS MaxLen, MaxDeep
 VARIABLE prog
 Alphabet == {[k |-> "label", n |-> "a"], [k |-> "label", n |-> "b"], [k |-> "use", n |-> "a"], [k |-> "use", n |-> "b"],
              [k |-> "scope"], [k |-> "ends"], [k |-> "func", n |-> "f"], [k |-> "endf"],
              [k |-> "set", n |-> "s", v |-> 5], [k |-> "set", n |-> "s", v |-> 9], [k |-> "use", n |-> "s"],
              [k |-> "export", n |-> "a"], [k |-> "use", n |-> "f"]}
-Init == prog = <<>>
-Next == Len(prog) < MaxLen /\ \E s \in Alphabet : prog' = Append(prog, s)
+\* deeper programs with one block: [global a] block-open, 2..4 statements, block-close, [use a | label a]
+Inner == {[k |-> "label", n |-> "a"], [k |-> "label", n |-> "b"], [k |-> "set", n |-> "s", v |-> 5],
+          [k |-> "use", n |-> "a"], [k |-> "use", n |-> "b"], [k |-> "use", n |-> "s"]}
+DeepProgs == {pre \o <<op[1]>> \o mid \o <<op[2]>> \o post :
+                pre \in {<<>>, <<[k |-> "label", n |-> "a"]>>},
+                op \in {<<[k |-> "scope"], [k |-> "ends"]>>, <<[k |-> "func", n |-> "f"], [k |-> "endf"]>>},
+                mid \in UNION {[1..n -> Inner] : n \in 2..MaxDeep},
+                post \in {<<>>, <<[k |-> "use", n |-> "a"]>>, <<[k |-> "label", n |-> "a"]>>}}
+Init == prog = <<>> \/ (MaxDeep > 0 /\ prog \in DeepProgs)
+Next == Len(prog) < MaxLen /\ (prog = <<>> \/ prog \notin DeepProgs) /\ \E s \in Alphabet : prog' = Append(prog, s)
 Spec == Init /\ [][Next]_prog
 Emit == prog = <<>> \/ PrintT("CASE " \o ToJson(prog))
 =============================================================================
